@@ -399,6 +399,11 @@ def run_lag(c):
     V = r['violations']
     sums = []
     dz0 = None
+    c = dict(c)
+    # horizon: the core is shortened so that the coarsest sweep has about 400 steps (the finest 1600)
+    with S.Built(build_scn(c)) as b0:
+        lim = float(b0.reactor().req_dz)
+    c['L'] = float('%.3g' % min(c.get('L', 0.24), 400 * 0.8 * lim))
     for k in range(3):
         scn = build_scn(c, dz_user=None if dz0 is None else dz0 / 2 ** k)
         with S.Built(scn) as b:
